@@ -25,6 +25,7 @@ type worldSpec struct {
 	names []string       // all shared objects (module globals), fixed order
 	index map[string]int // name -> position in names
 	class map[string]string
+	focus map[string]bool // nil: all; otherwise the objects the current case aims at
 
 	lists, dicts, sets, tuples, structs, funcs, bounds, scalars, iterables, indexables []string
 
